@@ -1,13 +1,43 @@
-import LhasaV.Model.Reader
+import LhasaV.Lemmas.ReaderLedger
 /-!
 # C20 — freeing a reader releases everything, on any call history or allocation failure
+
+`Reader.run (fresh st pol mk) ops` is the reader state after a history of API calls on an
+arbitrary stream; `Reader.free` is what is still allocated after `lha_reader_free` +
+`lha_input_stream_free` according to the ghost ledger (header objects with reference counts,
+their string blocks, decoder objects); `faults` records double frees / references to freed headers.
 -/
 namespace LhasaV.Props.C20
 open LhasaV LhasaV.Reader
 
-/-- a fresh reader owns nothing -/
-theorem fresh_ledger_empty (st : Stream.St) (mk : Nat → Nat) :
-    (Reader.free { basic := { stream := st }, mktime := mk }).live = 0 := by
-  rfl
+/-- For every archive (any bytes, any stream kind), directory policy and every legal history —
+at most one decode operation per member and one extract per entry — nothing is left allocated
+and nothing was freed twice. -/
+theorem free_releases_all (st : Stream.St) (pol : DirPolicy) (mk : Nat → Nat) (ops : List Op)
+    (hl : Legal ops) :
+    (free (run (fresh st pol mk) ops)).live = 0 ∧ (free (run (fresh st pol mk) ops)).faults = [] :=
+  Reader.free_releases_all st pol mk ops hl
+
+/-- … also when the caller abandons the archive at any point of such a history (while a
+re-presented directory or deferred symlink is current, with a decoder open, …). -/
+theorem free_releases_all_prefix (st : Stream.St) (pol : DirPolicy) (mk : Nat → Nat)
+    (ops a : List Op) (hl : Legal ops) (hp : a <+: ops) :
+    (free (run (fresh st pol mk) a)).live = 0 ∧ (free (run (fresh st pol mk) a)).faults = [] :=
+  Reader.free_releases_all_prefix st pol mk ops a hl hp
+
+/-- `Legal` is the property's quantifier: cut the history at its `next`s; every piece is empty,
+only reads, one check, or one extract. -/
+theorem legal_iff_segments (ops : List Op) :
+    Legal ops ↔ (segOk (segments ops).1 = true ∧ ∀ seg ∈ (segments ops).2, segOk seg = true) :=
+  Reader.legal_iff_segments ops
+
+/-- On legal histories the ledger's decoder count is exactly the number of decoder objects behind
+the open decoder (1 plain, 2 with the MacBinary pass-through): no decoder is ever overwritten. -/
+theorem decoders_exact (st : Stream.St) (pol : DirPolicy) (mk : Nat → Nat) (ops : List Op)
+    (hl : Legal ops) : InvD (run (fresh st pol mk) ops) :=
+  Reader.run_invD_legal st pol mk ops hl
+
+/-- non-vacuity: a history that extracts, reads in pieces and checks is legal -/
+example : Legal [.next, .extract true, .next, .read 7, .read 100, .next, .check, .next] := by decide
 
 end LhasaV.Props.C20
